@@ -50,7 +50,11 @@ TCheck == /\ IsEvent("Check") /\ l = TLen /\ Quiet /\ AllDone /\ UNCHANGED <<var
           /\ Rel("Check.own", \A j \in Nodes : Len(Ev.own[j]) = par.nv /\ \A v \in Vals : Ev.own[j][v + 1] = Own(j, v))
           /\ Rel("Check.pskeys", \A j \in Nodes : Len(Ev.pskeys[j]) = par.nv /\
                                    \A v \in Vals : SeqToSet(Ev.pskeys[j][v + 1]) = PsKeys(j, v))
+          \* every validator was examined: over ALL subsets of exactly t nodes (the executor lists them all for n <= 6)
           /\ \A v \in Vals : \E x \in DOMAIN Ev.subs : Ev.subs[x].v = v
+          /\ Rel("Check.allsubsets", par.n <= 6 => \A v \in Vals :
+                  {SeqToSet(Ev.subs[x].S) : x \in {y \in DOMAIN Ev.subs : Ev.subs[y].v = v}} = SubsetsOf(par.t))
+          /\ Rel("Check.somebelow", par.t >= 2 => \A v \in Vals : \E x \in DOMAIN Ev.below : Ev.below[x].v = v)
           /\ \A x \in DOMAIN Ev.subs :
                LET e == Ev.subs[x]  S == SeqToSet(e.S)  k == e.k
                    x0 == CHOOSE y \in DOMAIN Ev.subs : Ev.subs[y].v = e.v /\ \A z \in DOMAIN Ev.subs : Ev.subs[z].v = e.v => y <= z
